@@ -1,4 +1,4 @@
-CONSTANTS Ids = {1} Peers = {"A", "B"} Horizon = 5 Arr = 1
+CONSTANTS Ids = {1} Peers = {"A", "B"} Horizon = 4 Arr = 1
 SPECIFICATION MSpec
 INVARIANTS RequestsJustified NoStaleRequests
 CONSTRAINT Small
